@@ -130,6 +130,18 @@ impl Prop for C15Prop {
         let mut rng = Rng::new(seed, "config");
         let specs = Specs::from_index(idx as usize % 96);
         let mut case = Case::new("C15", seed, specs);
+        {
+            let mut hr = Rng::new(seed, "config.huge");
+            if hr.chance(1, 2500) {
+                // a graph of thousands of edges (strategy thresholds), then a short tail
+                let regime = gen::regime_any(&mut hr, true);
+                let mut wr = Rng::new(seed, "workload.huge");
+                case.ops = gen::gen_huge_history(&mut wr, specs, regime, true);
+                case.params.put("source", crate::core::json::J::s("history loading thousands of edges"));
+                case.envs = vec![Env { keying: if hr.chance(1, 2) { 0 } else { seed | 1 }, pool: if hr.chance(1, 8) { 1 } else { 2 + hr.below(15) }, sched: crate::core::rng::mix(seed, 78) }];
+                return case;
+            }
+        }
         let o = gen::HistOpts { specs, max_ops: 24, regime: gen::regime_any(&mut rng, true), derived: true, restart: true, names_min: 3, names_max: if rng.chance(1, 3) { 14 } else { 6 }, dup_bias: 35, big: rng.chance(1, 300) };
         let mut wr = Rng::new(seed, "workload");
         case.ops = gen::gen_history(&mut wr, &o);
@@ -168,7 +180,7 @@ impl Prop for C15Prop {
         let _ = (results, cx);
     }
     fn rule(&self) -> String {
-        "lifecycle histories over all 96 specs in which get_subgraph / reverse / set_all_edge_weights / to_single_edges are applied at random points (source = a graph produced by duplicate policies, re-added nodes, restarts) and the history continues on the result; each derived op: outcome (WrongMethod for the wrong kind), result vs the model's definition (nodes in original order with attributes, exact edge multiset, summed weights at 1e-9), result specs, source graph unchanged, reverse twice = identity, C02/C03 oracles on the result, C01 oracles on the continued history; 2 hash keyings. distinct_nontrivial = distinct (specs, history) with >= 1 derived operation executed".into()
+        "lifecycle histories over all 96 specs in which get_subgraph / reverse / set_all_edge_weights / to_single_edges are applied at random points (source = a graph produced by duplicate policies, re-added nodes, restarts) and the history continues on the result; each derived op: outcome (WrongMethod for the wrong kind), result vs the model's definition (nodes in original order with attributes, exact edge multiset, summed weights at 1e-9), result specs, source graph unchanged, reverse twice = identity, C02/C03 oracles on the result, C01 oracles on the continued history; 2 hash keyings. distinct_nontrivial = distinct (specs, history) with >= 1 derived operation executed; one case in 2500 loads 2 100 - 12 500 edges (one to three batches or the constructor, same edge values re-submitted on multi-edge graphs) into 45-180 nodes and continues with a short tail (strategy thresholds)".into()
     }
     fn assumptions(&self) -> Vec<String> {
         vec!["edge attributes of to_single_edges results are not specified and not compared".into(), "summed weights compared at 1e-9 relative (then adopted by the model)".into()]
